@@ -37,6 +37,15 @@ PROPS = {
                    "final-view currency under concurrent writers"],
         assumptions=["notify_watchers is trusted to hand exactly one (key,value,version) record to the watchers of the key and to leave the store untouched"],
     ),
+    "C15": dict(
+        units=["pending"],
+        undecided=["real atomics / locks are sequentialised (in production ack, replicated and the counters are all touched under the outer pending_opps write lock)",
+                   "end-to-end observation through the cluster (rp / ack handlers in the dispatcher, replication thread)"],
+        assumptions=["call-site condition of register_pending_opp / replicated: an operation is handed to a node at most once while that node still owes its "
+                     "acknowledgement (replicate_message_to_secoundary iterates a map keyed by node name); it is a precondition, not proved at the call site",
+                     "HashMap::get_mut has a hand-written trusted specification (no vstd spec)",
+                     "AtomicUsize::fetch_add is modelled as a wrapping add on a plain usize"],
+    ),
     "C10": dict(
         units=["store"],
         reachable={"store": STORE_FNS},
